@@ -260,6 +260,9 @@ macro_rules! for_config {
             "64x8" => $m!(BUint, BInt, u64, 8),
             "64x16" => $m!(BUint, BInt, u64, 16),
             "64x128" => $m!(BUint, BInt, u64, 128),
+            "8x1024" => $m!(BUintD8, BIntD8, u8, 1024),
+            "16x512" => $m!(BUintD16, BIntD16, u16, 512),
+            "32x256" => $m!(BUintD32, BIntD32, u32, 256),
             "8x7" => $m!(BUintD8, BIntD8, u8, 7),
             "8x9" => $m!(BUintD8, BIntD8, u8, 9),
             "8x12" => $m!(BUintD8, BIntD8, u8, 12),
